@@ -74,19 +74,23 @@ func (wc *watchClient) Watch(ctx context.Context, key string, opts ...clientv3.O
 	wc.c.mu.Unlock()
 	if op.Rev() > 0 {
 		w.minRev = op.Rev()
+		// catching up from a past revision: etcd's unsynced-watcher sync sends the matching events of all
+		// missed revisions (up to 1000 of them) in ONE response, in revision order; only live revisions
+		// arrive one response each
+		var evs []*mvccpb.Event
+		var last int64
 		for _, h := range s.history {
 			if h.rev >= w.minRev {
-				// replay history (no notify needed: pump checks pending first)
-				var evs []*mvccpb.Event
 				for _, e := range h.events {
 					if w.matches(e) {
 						evs = append(evs, e)
+						last = h.rev
 					}
 				}
-				if len(evs) > 0 {
-					w.pending = append(w.pending, histEntry{rev: h.rev, events: evs})
-				}
 			}
+		}
+		if len(evs) > 0 {
+			w.pending = append(w.pending, histEntry{rev: last, events: evs})
 		}
 	} else {
 		w.minRev = s.rev + 1
